@@ -6,6 +6,7 @@ CONSTANTS
   Classes <- CoreClasses
   MaxTamper = 1
   MaxEnv = 8
+  Total = 5
   Urgent = TRUE
   Guarded = TRUE
 VIEW view
